@@ -164,10 +164,15 @@ Fixpoint v_br (l : list item) : list item :=
 Definition para_check (cf : cfg) (items : list item) (out : list oline) : N :=
   let k := lines_cmp (layout cf items) out in
   if N.eqb k 0 || N.eqb k 2 then k
-  else if N.eqb (lines_cmp (layout cf (v_lead true items)) out) 0 then 21%N
-  else if N.eqb (lines_cmp (layout cf (v_br items)) out) 0 then 22%N
-  else if N.eqb (lines_cmp (layout cf (v_br (v_lead true items))) out) 0 then 23%N
-  else k.
+  else
+    let k1 := lines_cmp (layout cf (v_lead true items)) out in
+    let k2 := lines_cmp (layout cf (v_br items)) out in
+    let k3 := lines_cmp (layout cf (v_br (v_lead true items))) out in
+    if N.eqb k1 0 then 21%N
+    else if N.eqb k2 0 then 22%N
+    else if N.eqb k3 0 then 23%N
+    else if N.eqb k1 2 || N.eqb k2 2 || N.eqb k3 2 then 2%N   (* a variant is inexact: undecided *)
+    else k.
 
 Definition check (c : case) : N :=
   match c with
